@@ -143,19 +143,15 @@ func ruleK10All(r *Report, p *Program) {
 		if fn.Pkg != tp || fn.Parent() != nil {
 			continue
 		}
-		usesAtoi := false
-		for _, b := range fn.Blocks {
-			for _, in := range b.Instrs {
-				if c, ok := in.(ssa.CallInstruction); ok {
-					if f := c.Common().StaticCallee(); f != nil && calleeName(f) == "strconv.Atoi" {
-						usesAtoi = true
-					}
-				}
-			}
+		// entry points only (exported functions and methods): unexported helpers are walked as part of them
+		if fn.Object() == nil || (!fn.Object().Exported() && fn.Signature.Recv() == nil) {
+			continue
 		}
+		usesAtoi := reachesCall(fn, func(n string) bool { return n == "strconv.Atoi" }, map[*ssa.Function]bool{})
+		helpers := inlineHelpers([]*ssa.Package{tp}, func(f *ssa.Function) bool { return f.Object() != nil && (f.Object().Exported() || f.Signature.Recv() != nil) })
 		name := calleeName(fn)
 		if usesAtoi {
-			paths := walkSimple(p, fn, nil, nil)
+			paths := walkSimple(p, fn, nil, helpers)
 			bad := ""
 			n := 0
 			for _, pa := range paths {
@@ -192,7 +188,7 @@ func ruleK10All(r *Report, p *Program) {
 			}
 		}
 		if fn.Name() == "UnmarshalUT0311L0x" {
-			paths := walkSimple(p, fn, []string{"d", "b"}, nil)
+			paths := walkSimple(p, fn, []string{"d", "b"}, helpers)
 			nDec, badA := 0, ""
 			nParse, badB := 0, ""
 			for _, pa := range paths {
@@ -344,40 +340,6 @@ func RuleW26(r *Report, p *Program) {
 	r.Check(badF == "" && nEmpty > 0, "W26f", "format-predicate:list", p.Pos(pred.Pos()), "empty list accepts; acceptance implies a matching element", badF)
 }
 
-// collectCallConsts: string constants passed at argument position pos of calls whose name has the given suffix.
-func collectCallConsts(fn *ssa.Function, suffix string, pos int, out map[string]bool, depth int, p *Program) {
-	if fn == nil || fn.Blocks == nil || depth > 2 {
-		return
-	}
-	for _, b := range fn.Blocks {
-		for _, in := range b.Instrs {
-			if mc, ok := in.(*ssa.MakeClosure); ok {
-				collectCallConsts(mc.Fn.(*ssa.Function), suffix, pos, out, depth+1, p)
-			}
-			c, ok := in.(ssa.CallInstruction)
-			if !ok {
-				continue
-			}
-			f := c.Common().StaticCallee()
-			if f == nil {
-				continue
-			}
-			if strings.HasSuffix(calleeName(f), suffix) {
-				args := c.Common().Args
-				if pos < len(args) {
-					if k, ok := args[pos].(*ssa.Const); ok && k.Value != nil {
-						if s, err := unquote(k.Value.ExactString()); err == nil {
-							out[s] = true
-						}
-					}
-				}
-			} else if f.Pkg == p.SSAPkg("types") && depth < 2 {
-				collectCallConsts(f, suffix, pos, out, depth+1, p)
-			}
-		}
-	}
-}
-
 func RuleJSON(r *Report, p *Program) {
 	r.Rule("J1", "every public type with a hand-written JSON encoder has a hand-written JSON decoder", 12)
 	r.Rule("J2", "the layout/format a writer emits is one its reader accepts (time layouts, HH:mm, PIN width)", 6)
@@ -418,7 +380,9 @@ func RuleJSON(r *Report, p *Program) {
 			}
 			wf, rx := map[string]bool{}, map[string]bool{}
 			collectCallConsts(mj, "fmt.Sprintf", 0, wf, 0, p)
-			collectCallConsts(uj, "regexp.MustCompile", 0, rx, 0, p)
+			for _, pat := range usedRegexPatterns(uj, p) {
+				rx[pat] = true
+			}
 			if len(wf) > 0 && len(rx) > 0 {
 				ok := true
 				d := ""
@@ -478,7 +442,9 @@ func RuleJSON(r *Report, p *Program) {
 		mj, uj := methodOf(p, nt, "MarshalJSON"), methodOf(p, nt, "UnmarshalJSON")
 		if mj != nil && uj != nil {
 			rx := map[string]bool{}
-			collectCallConsts(uj, "regexp.MustCompile", 0, rx, 0, p)
+			for _, pat := range usedRegexPatterns(uj, p) {
+				rx[pat] = true
+			}
 			bound := int64(-1)
 			for _, pa := range walkSimple(p, mj, []string{"pin"}, nil) {
 				if v, ok := pa.State.Ints["pin"]; ok {
